@@ -348,7 +348,7 @@ Qed.
 
 Lemma walks_test2 t k : f2_test t = true -> walks (print_test t) k (S k).
 Proof.
-  destruct t; try (apply walks_test); try discriminate. intros _. apply walks_if. reflexivity.
+  apply walks_test.
 Qed.
 
 Lemma walks_print :
@@ -1710,10 +1710,6 @@ Section Subst.
       + cbn [fb_node] in H. apply andb_true_iff in H as [H1 H2]. apply Nat.leb_le in H1, H2. split.
         * rewrite print_param. apply xp_param. lia.
         * apply nth_args_A.
-      + split; [|reflexivity]. cbn [sbn print]. rewrite app_nil_r. apply xp_tok, inert_esc.
-        unfold setname, sname. destruct b; cbn; congruence.
-      + split; [|reflexivity]. cbn [sbn print]. rewrite app_nil_r. apply xp_toks.
-        constructor; [apply inert_esc; cbv; congruence|]. constructor; [apply inert_esc; unfold ifname, sname; congruence|constructor].
     - intros b IH d H. cbn [fb_node] in H. destruct d as [|d]; [discriminate H|].
       destruct (Q_list b d IH H) as [H1 H2]. split.
       + cbn [sbn print]. rewrite print_group, app_nil_r, print_group.
@@ -1959,6 +1955,8 @@ Proof.
   - cbn [w_node] in H. apply andb_true_iff in H as [H _]. apply andb_true_iff in H as [Hh _].
     destruct (case_head_inv _ _ Hh) as (z & b0 & r & -> & -> & Hz).
     eexists _, _. split; [apply print_case_node|split; reflexivity].
+  - eexists _, _. split; [reflexivity|split; destruct b; reflexivity].
+  - eexists _, _. split; [reflexivity|split; reflexivity].
 Qed.
 Lemma safe_print ns r : forallb w_node ns = true -> safe_rest r -> safe_rest (print ns ++ r).
 Proof.
